@@ -20,6 +20,8 @@ C03  Labels stay attached to their data under every matrix operation history.
 """
 import ast
 
+from sa.ctorflow import wire
+
 from sa import fields as F
 from sa.fields import is_term, leaves, term_str, Eval, Unrecognised, NONE, ABSENT
 from sa.astutil import where, dump, kwargs_of, field_of, walk_no_nested, strip_us, if_chain, is_guard
@@ -1165,3 +1167,4 @@ def run(prog, rep, tier):
         check_all_mutators(prog, rep, K, ai, done)
     rep.extra["op_methods_evaluated"] = n_methods
     check_genotyping(prog, rep)
+    wire(prog, rep, "C03", 10, 480)
